@@ -505,13 +505,18 @@ spif_socket_send(spif_socket_t self, spif_str_t data)
                     }
                 }
                 break;
+            case EBADF:
+                /* Not a descriptor (any more):  nothing to close. */
+                self->fd = -1;
+                SPIF_SOCKET_FLAGS_CLEAR(self, SPIF_SOCKET_FLAGS_IOSTATE);
+                return FALSE;
+                break;
             case EIO:
             case EPIPE:
-                close(self->fd);
-                /* Drop */
-            case EBADF:
             case EINVAL:
             default:
+                /* Give the descriptor back before forgetting it (retrying an interrupted close()). */
+                spif_socket_close(self);
                 self->fd = -1;
                 SPIF_SOCKET_FLAGS_CLEAR(self, SPIF_SOCKET_FLAGS_IOSTATE);
                 return FALSE;
